@@ -163,13 +163,21 @@ func (s *ProxyServiceWrapper) Dependencies() []string {
 // will augment this with engine-specific settings (e.g., connection pool parameters
 // for Olla engine).
 func (s *ProxyServiceWrapper) createProxyConfiguration() *proxy.Configuration {
+	return NewProxyConfiguration(s.config)
+}
+
+// NewProxyConfiguration maps the proxy section of the configuration file onto the settings the
+// engines run with. Every setting the file offers has to be carried over here: one that is not
+// (as proxy.profile was not) is accepted, logged at start-up and then silently ignored.
+func NewProxyConfiguration(cfg *config.ProxyConfig) *proxy.Configuration {
 	return &proxy.Configuration{
 		ProxyPrefix:         "",
-		ConnectionTimeout:   s.config.ConnectionTimeout,
+		ConnectionTimeout:   cfg.ConnectionTimeout,
 		ConnectionKeepAlive: 30 * time.Second,
-		ResponseTimeout:     s.config.ResponseTimeout,
-		ReadTimeout:         s.config.ReadTimeout,
-		StreamBufferSize:    s.config.StreamBufferSize,
+		ResponseTimeout:     cfg.ResponseTimeout,
+		ReadTimeout:         cfg.ReadTimeout,
+		StreamBufferSize:    cfg.StreamBufferSize,
+		Profile:             cfg.Profile,
 	}
 }
 
